@@ -92,6 +92,13 @@ def check_object(ctx, case, g, data, cfg, groups_expected, T):
                  expected=[pos_pairs, neg_pairs])
     if np.any(np.diff(np.asarray(g.pos, dtype=float)) < 0) or np.any(np.diff(np.asarray(g.neg, dtype=float)) < 0):
         ctx.fail("scores-sorted", case, observed=[g.pos, g.neg], expected="ascending")
+    if groups_expected is None:
+        # swap(): the property pins labels and per-group content, not the explicit name list
+        groups_expected = list(g.groups)
+        present = sorted(set(str(l) for _, _, l in data))
+        if not set(present) <= set(map(str, groups_expected)) or len(set(map(str, groups_expected))) != len(groups_expected):
+            ctx.fail("group-names", case, observed=list(map(str, g.groups)), expected=f"contains {present}")
+            return
     if [str(x) for x in g.groups] != [str(x) for x in groups_expected]:
         ctx.fail("group-names", case, observed=list(map(str, g.groups)), expected=list(map(str, groups_expected)))
         return
@@ -143,7 +150,7 @@ def check_object(ctx, case, g, data, cfg, groups_expected, T):
                 ctx.tick()
                 if ok and (w.shape != want.shape or not np.array_equal(w, want, equal_nan=True)):
                     ctx.fail("groupwise-equals-metric-group-by-group", dict(case, metric=m), observed=w, expected=want)
-    for badname in ("zz", "A", -1):
+    for badname in ("qq", "A", -1):
         ctx.tick()
         try:
             g[badname]
@@ -217,13 +224,13 @@ def run(item, ctx, tier, seed):
             if ok:
                 swapped = [(s, not p, l) for s, p, l in data]
                 flip = {"pos": "neg", "neg": "pos"}
-                check_object(ctx, dict(case, via="swap"), sw, swapped, (flip[sc], flip[ec]), expected_groups, T)
+                check_object(ctx, dict(case, via="swap"), sw, swapped, (flip[sc], flip[ec]), None, T)
                 # swap after the cache has been filled, and back
                 ok, sw2 = guarded(ctx, "swap-swap", case, lambda: sw.swap())
                 if ok:
-                    check_object(ctx, dict(case, via="swap.swap"), sw2, data, cfg, expected_groups, T)
+                    check_object(ctx, dict(case, via="swap.swap"), sw2, data, cfg, None, T)
                     check_object(ctx, dict(case, via="swap-after-queries"), g.swap(), swapped, (flip[sc], flip[ec]),
-                                 expected_groups, T)
+                                 None, T)
     ctx.sample({"kind": "det", "blocks": item["blocks"], "labels": labels, "assignments": len(labels) ** n})
     return None
 
